@@ -188,6 +188,12 @@ func consCores(prop, tier string) []consCore {
 				out = append(out, consCore{kind: "start", magic: m, k: s})
 			}
 		}
+		// a record that needs the fetch size to grow up to a limit that is not on the doubling ladder
+		for _, m := range []int8{0, 1, 2} {
+			for v := 0; v < 6; v++ {
+				out = append(out, consCore{kind: "fetchmax", magic: m, k: v})
+			}
+		}
 		// several partitions share one broker: every fault letter at the 2nd and the 4th fetch
 		for f := 1; f < nFetchFaults; f++ {
 			poss := []int{1, 3}
@@ -236,6 +242,28 @@ func consCoreScenario(prop, tier string, idx int) *consScenario {
 		sc.Faults = []int{ffPartial}
 		sc.FaultCodes = []sarama.KError{0}
 		sc.CutFrac = []float64{float64(c.k-20) / 200}
+		sc.StartKind, sc.StartOff = []string{"oldest"}, []int64{0}
+		if c.magic < 2 {
+			sc.Version = sarama.V0_10_2_0
+			if c.magic == 0 {
+				sc.Version = sarama.V0_9_0_0
+			}
+		}
+	case "fetchmax":
+		shapes := [][3]int{{1000, 3000, 2200}, {512, 1500, 1200}, {256, 1000, 700}, {300, 2000, 1500}, {64, 1000, 900}, {1000, 2500, 2300}}
+		sh := shapes[c.k]
+		lg := genPlainLog(rng, 6, 0)
+		for i := range lg {
+			lg[i].Value = []byte(fmt.Sprintf("value-%d-%s", i, randBytes(rng, 10)))
+			lg[i].Headers = nil
+			lg[i].Offset = sc.Base + int64(i)
+		}
+		lg[2].Value = append([]byte("big-"), randBytes(rng, sh[2])...)
+		sc.Logs = [][]sarama.VRec{lg}
+		sc.BatchSizes = []int{1}
+		sc.MaxBatches = 3
+		sc.HonourMax = true
+		sc.FetchDefault, sc.FetchMax = int32(sh[0]), int32(sh[1])
 		sc.StartKind, sc.StartOff = []string{"oldest"}, []int64{0}
 		if c.magic < 2 {
 			sc.Version = sarama.V0_10_2_0
